@@ -141,8 +141,16 @@ class CardsMonitor:
                 self._viol(st, op, ctx, 'discard-pile', f'discard piles gained {sorted(gained.elements())}, expected {cards}')
             if cur['deck'] != prev['deck'] or cur['muck'] != prev['muck'] or cur['burn'] != prev['burn']:
                 self._viol(st, op, ctx, 'discard-other', 'deck/muck/burn changed on discard')
+            else:
+                exp = list(prev['hole'][i])
+                for c in cards:
+                    exp.remove(c)
+                if cur['hole'][i] != exp:
+                    self._viol(st, op, ctx, 'discard-hole-order', f'{prev["hole"][i]} -> {cur["hole"][i]} discarding {cards}: kept cards reordered')
             if cards:
                 ctx.counters['discards_seen'] += 1
+                if cards.count('??') >= 2 and any(c != '??' for c in prev['hole'][i]):
+                    ctx.counters['discards_of_2+_unknown_cards_from_mixed_holes'] += 1
         elif name in ('Folding', 'HandKilling') or (name == 'HoleCardsShowingOrMucking' and not op.hole_cards):
             i = op.player_index
             if cur['hole'][i]:
